@@ -39,7 +39,11 @@ META = {
         'its real path; an effective operation outside the mounted trees, or any change of the sentinel tree around '
         'the mounts, refutes the property. Workload: every statement of the list x hostile path strings x CHDIR '
         'histories x mount variants (initial cwd, current drive); a seed-independent directed table plus seeded '
-        'random path strings. The sandbox hangs sixteen watched padding directories below the temp directory, the '
+        'random path strings. The same monitor also runs under the double-byte codepages 932/936/949/950 and the '
+        'single-byte ones 437/850/866/874/1258/737, with path elements built from the byte sequences of that '
+        'codepage whose characters fold (NFKC) or look like . .. ... / \\ : * ? blank (fullwidth forms, two-dot '
+        'leader, ellipsis, middle dots, yen/won sign), fullwidth spellings of the sentinel names and double-byte '
+        'characters whose trail byte is a backslash (feature key codepage-lookalike). The sandbox hangs sixteen watched padding directories below the temp directory, the '
         'process cwd is an unmounted directory inside it, and after each shard the host root, temp, home and /verif '
         'directories are swept for entries carrying a workload name (third channel: escape:stray-entry-above-sandbox).'),
     'level_note': (
@@ -56,7 +60,8 @@ META = {
     'assumptions': ['CPython raises audit events for every host file-system call the interpreter can make',
                     'the sandbox lives on a POSIX file system (case-sensitive, \'/\' separator)'],
     'require_counters': {'any': ['fs_events_inside_mounts', 'stmts_ok', 'frame_snapshots_compared',
-                                 'stmts_with_dotdot']},
+                                 'stmts_with_dotdot', 'stmts_with_codepage_lookalike', 'stmts_under_codepage_932',
+                                 'stmts_under_codepage_936', 'stmts_under_codepage_949', 'stmts_under_codepage_950']},
     'timeout': {'quick': 900, 'thorough': 7200},
 }
 
@@ -223,7 +228,11 @@ class Sandbox(object):
             'D': self.other + (':' + v['dcwd'].replace('/', os.sep) if v['dcwd'] else ''),
             'Z': None,
         }
-        self.box = self.harness.Box(root=S, mounts=mounts, current_device=v['cur'], budget=400, wait_budget=60)
+        kw = {}
+        self.cpinfo = cp_info(v.get('cp'))
+        if v.get('cp'):
+            kw['codepage'] = self.cpinfo['cp']
+        self.box = self.harness.Box(root=S, mounts=mounts, current_device=v['cur'], budget=400, wait_budget=60, **kw)
         self.rootrel = set(os.path.relpath(r, self.TOP) for r in self.roots)
         self.allow = fsmon.default_allow()
         self.baseline = self._snap()
@@ -293,7 +302,11 @@ class Sandbox(object):
                 internal = internal or e
         if kind == 'chdir':
             self.history.append(args[0])
-        feature = path_feature(list(self.history) + args)
+        feature = path_feature(list(self.history) + args, self.cpinfo['bytes'])
+        if self.variant.get('cp'):
+            res.count('stmts_under_codepage_' + self.variant['cp'])
+        if any(lk in a for a in args for lk in self.cpinfo['bytes']):
+            res.count('stmts_with_codepage_lookalike')
         res.case(('stmt', repr(sorted(self.variant.items())), tuple(case['history']), kind, tuple(args)))
         res.count('stmts_total')
         if any(b'..' in a for a in args):
@@ -346,9 +359,9 @@ class Sandbox(object):
             rel = os.path.relpath(ev.paths[i], self.S)
             res.violation(
                 key,
-                '%s with %r (CHDIR history %r, mounts C:=S/a/b/root D:=S/a/b/other, current %s) performed %s on '
+                '%s with %r (codepage %s, CHDIR history %r, mounts C:=S/a/b/root D:=S/a/b/other, current %s) performed %s on '
                 'host path %s [was %s] outside every mount; output %r' % (
-                    text.decode('latin-1'), args, self.history, self.variant['cur'], ev.event,
+                    text.decode('latin-1'), args, self.variant.get('cp') or '437', self.history, self.variant['cur'], ev.event,
                     ('S/' + rel) if not rel.startswith('..') else ev.paths[i], ev.pre[i], out[:120]),
                 case)
         # ---- (b) frame snapshot -----------------------------------------------------------
@@ -392,9 +405,11 @@ def leading_dotdots(p):
     return n
 
 
-def path_feature(paths):
+def path_feature(paths, lookalikes=()):
     """Mechanism class of the path strings involved (first that applies), for the violation key."""
     blob = b'\x01'.join(paths)
+    if any(lk in blob for lk in lookalikes):
+        return 'codepage-lookalike'
     if re.search(rb'\.\.[ \t\r\n\x0b\x0c]+(\\|/|\x01|$)', blob):
         return 'dotdot-trailing-whitespace'
     if b'..' in blob:
@@ -410,6 +425,159 @@ def path_feature(paths):
     if any(c in blob for c in (b'*', b'?')):
         return 'wildcard'
     return 'plain'
+
+
+# ---------------------------------------------------------------------------------------
+# codepages: the byte sequences of a codepage whose characters look like (or fold to) . .. ... / \\ : * ? blank
+
+CODEPAGES_DBCS = ['932', '936', '949', '950']
+CODEPAGES_SBCS = ['437', '850', '866', '874', '1258', '737']
+# characters that merely LOOK like path syntax (no compatibility decomposition says so)
+VISUAL = {u'\u00b7': '.', u'\u2219': '.', u'\u30fb': '.', u'\uff65': '.', u'\u3002': '.', u'\uff61': '.', u'\u2022': '.',
+          u'\u02d9': '.', u'\u00a5': '\\', u'\u20a9': '\\', u'\u2216': '\\', u'\u2215': '/', u'\u2044': '/', u'\u2571': '/',
+          u'\u2572': '\\', u'\u2236': ':', u'\u02d0': ':', u'\u205a': ':', u'\u2217': '*', u'\u00d7': '*', u'\u00bf': '?',
+          u'\u00a8': '..', u'\u2500': '-'}
+_CP = {}
+
+
+def cp_info(name):
+    """
+    {'cp': codepage dict or None, 'look': {ascii form: [byte sequences]}, 'fw': {ascii byte: bytes of its
+    fullwidth form}, 'trail5c': [double-byte characters whose trail byte is a backslash], 'bytes': all of the
+    look-alike sequences}; name None = the default codepage 437 (session created without a codepage argument).
+    """
+    key = name or '437'
+    if key in _CP:
+        return _CP[key]
+    import unicodedata
+    from pcbasic.data import read_codepage
+    cp = read_codepage(key)
+    look, fw, trail = {}, {}, []
+    syntax = set(u'./\\:*? ')
+    for kb, u in cp.items():
+        if not isinstance(kb, bytes) or not u:
+            continue
+        if len(kb) == 2 and kb[1:] == b'\\' and len(trail) < 12:
+            trail.append(kb)
+        if len(kb) == 1 and kb[0] < 128:
+            continue
+        folded = unicodedata.normalize('NFKC', u)
+        if u in VISUAL and VISUAL[u] in ('.', '..', '/', '\\', ':', '*', '?'):
+            look.setdefault(VISUAL[u], []).append(kb)
+        elif folded != u and folded and set(folded) <= syntax:
+            look.setdefault(folded, []).append(kb)
+        elif folded != u and len(folded) == 1 and 33 <= ord(folded) < 127:
+            fw.setdefault(ord(folded), kb)
+    # compatibility (NFKC-folding) forms first, merely visual ones after; double-byte before single-byte
+    for form, seqs in look.items():
+        seqs.sort(key=lambda kb: (cp[kb] in VISUAL, -len(kb), kb))
+    allb = sorted(set(b for v in look.values() for b in v))
+    _CP[key] = {'cp': cp if name else None, 'look': look, 'fw': fw, 'trail5c': trail, 'bytes': allb, 'name': key}
+    return _CP[key]
+
+
+def cp_dotdots(info):
+    """Elements that look like '..' in this codepage (as byte strings)."""
+    look = info['look']
+    out = list(look.get('..', [])[:3])
+    for d in look.get('.', [])[:3]:
+        out += [d + d, d + b'.']
+    out += look.get('...', [])[:1]
+    for sp in look.get(' ', [])[:1]:
+        out.append(b'..' + sp)
+    for d in look.get('..', [])[:1]:
+        out.append(d + b' ')
+    return out
+
+
+def cp_fullwidth(info, name):
+    """The name spelled with the codepage's fullwidth forms where it has them."""
+    look, fw = info['look'], info['fw']
+    out = b''
+    for c in bytearray(name):
+        if c == 46 and look.get('.'):
+            out += look['.'][0]
+        else:
+            out += fw.get(c, bytes([c]))
+    return out
+
+
+def gen_cp_path(rng, info):
+    """A hostile path built from the codepage's own look-alikes."""
+    look = info['look']
+    dds = cp_dotdots(info) or [b'..']
+    seps = [b'\\'] * 6 + look.get('/', []) + look.get('\\', []) + [b'/']
+    r = rng.random()
+    p = rng.choice([b'', b'', b'', b'C:', b'D:', b'C:\\', b'\\'] + [b'C' + c for c in look.get(':', [])] +
+                   [cp_fullwidth(info, b'C') + b':'])
+    for k in range(rng.choice([1, 1, 2, 2, 3, 4, 5])):
+        if k:
+            p += rng.choice(seps)
+        r = rng.random()
+        if r < 0.45:
+            p += rng.choice(dds)
+        elif r < 0.55:
+            p += rng.choice([b'..', b'..', b'.. ', b'.'])
+        elif r < 0.70:
+            sl = rng.choice(look.get('/', []) + look.get('\\', []) + [b'/'])
+            p += rng.choice([b'SUB1', b'SUB2', b'OSUB']) + (sl + rng.choice(dds + [b'..'])) * rng.choice([1, 2, 2, 3])
+        elif r < 0.90:
+            nm = rng.choice(SENT_NAMES + IN_NAMES + WILD[:3])
+            p += cp_fullwidth(info, nm) if rng.random() < 0.25 else nm
+        elif info['trail5c']:
+            p += rng.choice(info['trail5c']) + rng.choice([b'', b'..', b'SENT2.TXT'])
+        else:
+            p += bytes(rng.randrange(128, 256) for _ in range(rng.randint(1, 4)))
+    return p[:255]
+
+
+CP_KINDS = ['open_i', 'open_a', 'open_o', 'open_r', 'load', 'save', 'merge', 'chain', 'run', 'bload', 'bsave', 'kill', 'files',
+            'mkdir', 'rmdir', 'chdir']
+CP_AFTER = [('files_noarg', []), ('open_i', [b'SENT2.TXT']), ('open_a', [b'SENT2.TXT']), ('open_o', [b'NEWOUT.TXT']),
+            ('load', [b'SENT2']), ('save', [b'NEWOUT']), ('kill', [b'SENT2.TXT']), ('name', [b'SENT2.TXT', b'STOLEN.TXT']),
+            ('mkdir', [b'NEWOUTD']), ('rmdir', [b'EMPTYD']), ('open_i', [b'IN1.TXT'])]
+
+
+def directed_cp_cases(cpname):
+    """[(variant, history, kind, args)] for one codepage: every look-alike of '..' and of the separators."""
+    info = cp_info(None if cpname == '437' else cpname)
+    look = info['look']
+    variant = dict(MOUNT_VARIANTS[0], cp=(None if cpname == '437' else cpname))
+    dds = cp_dotdots(info)
+    sls = look.get('/', []) + look.get('\\', [])
+    prefixes = []
+    sls = sls[:3]
+    for dd in dds:
+        prefixes += [dd + b'\\', b'C:' + dd + b'\\', b'SUB1\\..\\' + dd + b'\\']
+        for sl in sls[:1]:
+            prefixes.append(dd + sl)
+    for sl in sls:
+        prefixes += [b'SUB1' + sl + b'..' + sl + b'..\\', b'SUB1' + sl + b'..' + sl + b'..' + sl, b'..' + sl + b'..' + sl,
+                     b'SUB1\\SUBSUB' + sl + b'..' + sl + b'..' + sl + b'..\\']
+        for dd in dds[:1]:
+            prefixes.append(b'SUB1' + sl + dd + sl + dd + b'\\')
+    for c in look.get(':', [])[:2]:
+        prefixes += [b'C' + c + b'..\\', b'C' + c + b'\\..\\']
+    for t in info['trail5c'][:3]:
+        prefixes += [t + b'..\\', b'..' + t[:1] + b'\\..\\']
+    cases = []
+    for pre in prefixes:
+        for k in CP_KINDS:
+            cases.append((variant, [], k, [pre + KIND_TARGETS[k][0]]))
+        cases.append((variant, [], 'name', [pre + b'SENT2.TXT', b'NEW9.TXT']))
+        cases.append((variant, [], 'name', [b'IN1.TXT', pre + b'STOLEN.TXT']))
+    # the look-alike as CHDIR target, then plain names
+    hists = [[dd] for dd in dds[:6]] + [[b'SUB1' + sl + b'..' + sl + b'..'] for sl in sls[:2]]
+    for h in hists:
+        for k, a in CP_AFTER:
+            cases.append((variant, h, k, a))
+    # sentinels spelled in fullwidth forms behind a real (clamped) '..'
+    for nm in (b'SENT2.TXT', b'SENT2.BAS', b'EMPTYD'):
+        f = cp_fullwidth(info, nm)
+        if f != nm:
+            for k in ('open_i', 'kill', 'files', 'rmdir', 'load'):
+                cases.append((variant, [], k, [b'..\\' + f]))
+    return cases
 
 
 # ---------------------------------------------------------------------------------------
@@ -614,9 +782,12 @@ DIRECTED_PARTS = 12
 
 def plan(tier, seed):
     shards = [{'kind': 'directed', 'part': i, 'parts': DIRECTED_PARTS} for i in range(DIRECTED_PARTS)]
+    for c in CODEPAGES_DBCS:
+        shards += [{'kind': 'directed_cp', 'cp': c, 'part': i, 'parts': 2} for i in range(2)]
+    shards += [{'kind': 'directed_cp', 'cp': c, 'part': 0, 'parts': 1} for c in CODEPAGES_SBCS]
     if tier == 'quick':
         for i in range(16):
-            shards.append({'kind': 'random', 'part': i, 'n': 1900})
+            shards.append({'kind': 'random', 'part': i, 'n': 1600})
     else:
         for i in range(64):
             shards.append({'kind': 'random', 'part': i, 'n': 12000})
@@ -630,6 +801,8 @@ def run_shard(spec, res):
     try:
         if kind == 'directed':
             return _directed(spec, res)
+        if kind == 'directed_cp':
+            return _directed_cp(spec, res)
         if kind == 'random':
             return _random(spec, rng, res)
         raise ValueError(kind)
@@ -746,6 +919,45 @@ def _directed(spec, res):
             sb.close()
 
 
+def _directed_cp(spec, res):
+    cases = directed_cp_cases(spec['cp'])
+    n = (len(cases) + spec.get('parts', 1) - 1) // spec.get('parts', 1)
+    cases = cases[spec.get('part', 0) * n:(spec.get('part', 0) + 1) * n]       # contiguous: sandboxes are reused
+    sb = None
+    cur = None
+    n_in_sb = 0
+    sampled = 0
+    try:
+        for variant, hist, kind, args in cases:
+            if sb is None or cur != tuple(hist) or n_in_sb >= 60:
+                if sb is not None:
+                    sb.close()
+                sb = Sandbox(res, variant)
+                cur = tuple(hist)
+                n_in_sb = 0
+                ok = True
+                for h in hist:
+                    ok, _ = sb.stmt('chdir', [h])
+                    if not ok:
+                        break
+                if not ok:
+                    sb.close()
+                    sb = None
+                    continue
+            ok, code = sb.stmt(kind, args, directed=True)
+            n_in_sb += 1
+            if sampled < 2:
+                sampled += 1
+                res.sample({'kind': 'directed_cp', 'codepage': spec['cp'], 'history': hist, 'statement': KINDS[kind][0],
+                            'args': args, 'error': code})
+            if not ok or (code == 0 and (kind in ('kill', 'rmdir', 'name', 'chdir') or KINDS[kind][3])) or (hist and kind != 'files_noarg'):
+                sb.close()
+                sb = None
+    finally:
+        if sb is not None:
+            sb.close()
+
+
 def _random(spec, rng, res):
     n = spec['n']
     done = 0
@@ -756,10 +968,23 @@ def _random(spec, rng, res):
         bag += [k] * weights.get(k, 1)
     while done < n:
         variant = rng.choice(MOUNT_VARIANTS)
+        cpr = rng.random()
+        if cpr < 0.25:
+            variant = dict(variant, cp=rng.choice(CODEPAGES_DBCS))
+        elif cpr < 0.33:
+            variant = dict(variant, cp=rng.choice(CODEPAGES_SBCS[1:]))
         with Sandbox(res, variant) as sb:
             ok = True
+            info = sb.cpinfo
+            use_cp = 0.55 if variant.get('cp') else 0.04
+
+            def mk_path(rng_, S_):
+                return gen_cp_path(rng_, info) if rng_.random() < use_cp else gen_path(rng_, S_)
+
+            def mk_chdir(rng_, S_):
+                return gen_cp_path(rng_, info) if rng_.random() < use_cp * 0.6 else gen_chdir(rng_, S_)
             for _ in range(rng.choice([0, 0, 0, 1, 1, 2, 3])):
-                ok, _c = sb.stmt('chdir', [gen_chdir(rng, sb.S)])
+                ok, _c = sb.stmt('chdir', [mk_chdir(rng, sb.S)])
                 done += 1
                 if not ok:
                     break
@@ -770,9 +995,9 @@ def _random(spec, rng, res):
                 nargs = KINDS[kind][1]
                 args = []
                 if nargs >= 1:
-                    args.append(gen_chdir(rng, sb.S) if kind == 'chdir' else gen_path(rng, sb.S))
+                    args.append(mk_chdir(rng, sb.S) if kind == 'chdir' else mk_path(rng, sb.S))
                 if nargs == 2:
-                    args.append(gen_path(rng, sb.S) if rng.random() < 0.6 else gen_simple_target(rng))
+                    args.append(mk_path(rng, sb.S) if rng.random() < 0.6 else gen_simple_target(rng))
                     if rng.random() < 0.3:
                         args[0] = rng.choice([b'IN1.TXT', b'SUB1\\F1.TXT', b'lower.txt', b'SUB2', b'D:OTH.TXT'])
                 ok, code = sb.stmt(kind, args)
